@@ -243,7 +243,10 @@ impl Run {
                 tier = if t == "thorough" { Tier::Thorough } else { Tier::Quick };
             }
         }
-        let budget = Duration::from_secs(budget_s.unwrap_or(tier.pick(60, 900)));
+        // The budget only bounds exploration (sections are sized in cases, not seconds): quick workloads
+        // finish in well under a minute on an idle 16-core machine; the generous quick budget keeps
+        // their coverage (and therefore the evidence floors) independent of machine load.
+        let budget = Duration::from_secs(budget_s.unwrap_or(tier.pick(240, 900)));
         install_panic_hook();
         Run {
             prop: prop.to_string(),
@@ -486,10 +489,19 @@ impl Run {
             "wall_s": wall,
             "violations": new_v.len(),
         });
-        if self.replay.is_none() && self.only.is_none() {
-            let dir = root.join("evidence");
+        // VERIF_EVIDENCE_TAG=<engine>: a sanitizer pass of the same binary (restricted to some
+        // sections) writes logs/san/<prop>.<engine>.json, which `check` folds into the main file.
+        let tag = std::env::var("VERIF_EVIDENCE_TAG").ok().filter(|t| !t.is_empty());
+        if self.replay.is_none() && (self.only.is_none() || tag.is_some()) {
+            let dir = match &tag {
+                Some(_) => root.join("logs").join("san"),
+                None => root.join("evidence"),
+            };
             let _ = std::fs::create_dir_all(&dir);
-            let path = dir.join(format!("{}.json", self.prop));
+            let path = match &tag {
+                Some(t) => dir.join(format!("{}.{}.json", self.prop, t)),
+                None => dir.join(format!("{}.json", self.prop)),
+            };
             if let Err(e) = std::fs::write(&path, serde_json::to_string_pretty(&ev).unwrap()) {
                 eprintln!("cannot write evidence {path:?}: {e}");
             }
@@ -518,7 +530,10 @@ impl Run {
             let dir = root.join("replay");
             let _ = std::fs::create_dir_all(&dir);
             for (i, v) in new_v.iter().enumerate() {
-                let path = dir.join(format!("{}-{}-{}.json", self.prop, self.seed, i));
+                let path = match &tag {
+                    Some(t) => dir.join(format!("{}-{}-{}-{}.json", self.prop, t, self.seed, i)),
+                    None => dir.join(format!("{}-{}-{}.json", self.prop, self.seed, i)),
+                };
                 let mut d = v.detail.clone();
                 if let Value::Object(m) = &mut d {
                     m.insert("signature".into(), json!(v.signature));
